@@ -13,6 +13,7 @@
         head written to the proxy outside a tunnel and every head written to the reverse target carries it.
 -/
 import MitmVerif.Model.C24
+import MitmVerif.Model.C24_Route
 namespace MitmVerif.Props.C24
 open MitmVerif MitmVerif.C24
 
@@ -248,5 +249,146 @@ example : run true (fun c => if c = 0 then .reverse else .regular) State.init [(
      (1, .response, [⟨.originDirect, .request, false, none⟩]),
      (1, .tunnel, []),
      (1, .response, [⟨.originDirect, .request, false, none⟩])] := by decide +kernel
+
+/-! ## Round 3: the routing model — the connection parameters are predicted, reuse included -/
+
+section Routing
+open MitmVerif.C24.Route
+
+/-- the explicit-proxy layer hands every request a connection whose spec is exactly the request's own target:
+    address, TLS, `via`; a fresh one also gets SNI = host (TLS only) and CONNECT-first = via ∧ tls — for every pool -/
+theorem route_conn_matches_request (auth : Bool) (m : Mode) (tn : Bool) (s : CState) (host port : Nat) (https : Bool)
+    (hm : m.isHttpProxy = true) (hp : s.phase = .outer) :
+    ∃ c, (rstep auth m tn s (.req host port https)).2.conn = some c ∧
+      c.host = host ∧ c.port = port ∧ c.tls = https ∧ c.via = (m == Mode.upstream) ∧
+      ((rstep auth m tn s (.req host port https)).2.fresh = true →
+        c.sni = (if https then some host else none) ∧ c.sendConnect = ((m == Mode.upstream) && https) ∧ c.idx = s.used) := by
+  unfold rstep
+  simp only [hp, hm, Bool.true_and]
+  cases hf : s.pool.find? (fun c => c.matches host port https (m == Mode.upstream)) with
+  | some c =>
+    have hmatch := List.find?_some hf
+    simp only [UpConn.matches, Bool.and_eq_true, beq_iff_eq] at hmatch
+    refine ⟨c, by simp, hmatch.1.1.1, hmatch.1.1.2, hmatch.1.2, hmatch.2, by simp⟩
+  | none =>
+    exact ⟨⟨host, port, https, if https then some host else none, m == Mode.upstream, (m == Mode.upstream) && https, s.used⟩,
+      by simp, rfl, rfl, rfl, rfl, fun _ => ⟨rfl, rfl, rfl⟩⟩
+
+/-- **Host vs destination**: in a transparent layer (reverse / transparent / SOCKS5, and inside every CONNECT tunnel)
+    the outcome — connection, writes, credential — does not depend on the host, port or scheme the request names -/
+theorem transparent_dest_ignores_host (auth : Bool) (m : Mode) (tn : Bool) (s : CState)
+    (h1 p1 h2 p2 : Nat) (t1 t2 : Bool) (hl : (m.isHttpProxy && s.phase == .outer) = false) :
+    rstep auth m tn s (.req h1 p1 t1) = rstep auth m tn s (.req h2 p2 t2) := by
+  unfold rstep
+  cases hp : s.phase <;> simp_all
+
+/-- **scheme changes**: an http and an https request to the same host and port never share a connection -/
+theorem scheme_change_uses_other_connection (auth : Bool) (m : Mode) (tn tn' : Bool) (s s' : CState) (host port : Nat)
+    (hm : m.isHttpProxy = true) (hp : s.phase = .outer) (hp' : s'.phase = .outer) (c c' : UpConn)
+    (h1 : (rstep auth m tn s (.req host port false)).2.conn = some c)
+    (h2 : (rstep auth m tn' s' (.req host port true)).2.conn = some c') : c ≠ c' := by
+  obtain ⟨d, hd, _, _, htls, _⟩ := route_conn_matches_request auth m tn s host port false hm hp
+  obtain ⟨d', hd', _, _, htls', _⟩ := route_conn_matches_request auth m tn' s' host port true hm hp'
+  rw [h1] at hd; rw [h2] at hd'
+  simp only [Option.some.injEq] at hd hd'
+  subst hd; subst hd'
+  intro h; rw [h] at htls; rw [htls] at htls'; cases htls'
+
+/-- invariant of one client connection in mode `m` (`tn` = membership in UpstreamAuth.tunneled) -/
+private def CInv (m : Mode) (tn : Bool) (s : CState) : Prop :=
+  (s.phase = .tunnel → tn = true ∧ m.isHttpProxy = true) ∧
+  (∀ c ∈ s.pool, c.sendConnect = (c.via && c.tls) ∧ (c.via = true → m = .upstream)) ∧
+  (∀ c, s.ctx = some c → (c.sendConnect = true → c.via = true) ∧ (c.via = true → m = .upstream ∧ s.phase ≠ .outer) ∧
+      (m = .reverse → c.host = 3 ∧ c.via = false))
+
+private theorem cinv_init (m : Mode) : CInv m false (CState.init m) := by
+  refine ⟨by simp [CState.init], by simp [CState.init], ?_⟩
+  intro c hc
+  cases m <;> simp [CState.init, initCtx] at hc <;> subst hc <;> simp
+
+/-- one step: under the invariant, a write that carries the credential is read by the upstream proxy (upstream mode)
+    or by the reverse target (reverse mode) — never by an origin, directly or through a tunnel -/
+private theorem rstep_allowed (auth : Bool) (m : Mode) (tn : Bool) (s : CState) (e : REv) (h : CInv m tn s) :
+    ∀ c, (rstep auth m tn s e).2.conn = some c → ∀ w ∈ (rstep auth m tn s e).2.writes, w.cred ≠ none →
+      (partyOf m c w = .proxy ∧ m = .upstream) ∨ (partyOf m c w = .reverseTarget ∧ m = .reverse) := by
+  obtain ⟨h1, h2, h3⟩ := h
+  intro c hc w hw hcred
+  unfold rstep at hc hw
+  cases hp : s.phase with
+  | closed => simp [hp] at hc
+  | outer =>
+    cases e with
+    | connect host port => by_cases hm : m.isHttpProxy = true <;> simp [hp, hm] at hc
+    | req host port https =>
+      by_cases hm : m.isHttpProxy = true
+      · simp only [hp, hm, Bool.true_and, beq_self_eq_true, if_true] at hc hw
+        cases hf : s.pool.find? (fun c => c.matches host port https (m == Mode.upstream)) with
+        | some c1 =>
+          simp only [hf, Option.some.injEq] at hc hw
+          subst hc
+          have hmem := List.mem_of_find?_eq_some hf
+          have hmatch := List.find?_some hf
+          simp only [UpConn.matches, Bool.and_eq_true, beq_iff_eq] at hmatch
+          obtain ⟨hsc, hvia⟩ := h2 c1 hmem
+          cases m <;> cases https <;> cases auth <;> cases tn <;>
+            simp_all [writesOn, requestheaders, connectUpstream, partyOf, Mode.isHttpProxy] <;>
+            (first
+              | (rcases hw with ⟨-, rfl⟩ | rfl <;> simp_all)
+              | (rcases hw with rfl | rfl <;> simp_all)
+              | (obtain ⟨-, rfl⟩ := hw; simp_all)
+              | (subst hw; simp_all)
+              | skip)
+        | none =>
+          simp only [hf, Option.some.injEq] at hc hw
+          subst hc
+          cases m <;> cases https <;> cases auth <;> cases tn <;>
+            simp_all [writesOn, requestheaders, connectUpstream, partyOf, Mode.isHttpProxy] <;>
+            (first
+              | (rcases hw with ⟨-, rfl⟩ | rfl <;> simp_all)
+              | (rcases hw with rfl | rfl <;> simp_all)
+              | (obtain ⟨-, rfl⟩ := hw; simp_all)
+              | (subst hw; simp_all)
+              | skip)
+      · simp only [hp, hm, Bool.false_and, Bool.false_eq_true, if_false] at hc hw
+        cases hcx : s.ctx with
+        | none => simp [hcx] at hc
+        | some c0 =>
+          simp only [hcx, Option.some.injEq] at hc hw
+          obtain ⟨ha, hb, hr⟩ := h3 c0 hcx
+          have hv : c0.via = false := by
+            cases hv : c0.via with
+            | false => rfl
+            | true => exact absurd hp (hb hv).2
+          have hsc : c0.sendConnect = false := by
+            cases hs : c0.sendConnect with
+            | false => rfl
+            | true => rw [ha hs] at hv; cases hv
+          subst hc
+          cases m <;> cases auth <;> cases tn <;> cases hu : s.ctxUsed <;>
+            simp_all [writesOn, requestheaders, connectUpstream, partyOf, Mode.isHttpProxy]
+  | tunnel =>
+    obtain ⟨htn, hmp⟩ := h1 hp
+    cases e with
+    | connect host port => simp [hp] at hc
+    | req host port https =>
+      have hne : ((RPhase.tunnel == RPhase.outer) = false) := by decide
+      simp only [hp, hmp, Bool.true_and, hne, Bool.false_eq_true, if_false] at hc hw
+      cases hcx : s.ctx with
+      | none => simp [hcx] at hc
+      | some c0 =>
+        simp only [hcx, Option.some.injEq] at hc hw
+        obtain ⟨ha, hb, hr⟩ := h3 c0 hcx
+        subst hc
+        subst htn
+        cases m <;> cases auth <;> cases hu : s.ctxUsed <;> cases hv : c0.via <;> cases hs : c0.sendConnect <;>
+          simp_all [writesOn, requestheaders, connectUpstream, partyOf, Mode.isHttpProxy] <;>
+          (first
+              | (rcases hw with ⟨-, rfl⟩ | rfl <;> simp_all)
+              | (rcases hw with rfl | rfl <;> simp_all)
+              | (obtain ⟨-, rfl⟩ := hw; simp_all)
+              | (subst hw; simp_all)
+              | skip)
+
+end Routing
 
 end MitmVerif.Props.C24
